@@ -1,6 +1,7 @@
 //! One workload + oracle module per property.
 use crate::fw::{Cfg, Report};
 
+pub mod c01;
 pub mod c02;
 pub mod c03;
 pub mod c04;
@@ -9,8 +10,13 @@ pub mod c06;
 pub mod c07;
 pub mod c08;
 pub mod c09;
+pub mod c17;
+pub mod c18;
 pub mod c19;
+pub mod c20;
+pub mod enums_corpus;
 pub mod enums_fixed;
+pub mod status;
 pub mod c10;
 pub mod c11;
 pub mod c12;
@@ -18,6 +24,7 @@ pub mod c14;
 
 pub fn run(cfg: &Cfg, rep: &mut Report) -> bool {
     match cfg.prop.as_str() {
+        "C01" => c01::run(cfg, rep),
         "C02" => c02::run(cfg, rep),
         "C03" => c03::run(cfg, rep),
         "C04" => c04::run(cfg, rep),
@@ -29,8 +36,14 @@ pub fn run(cfg: &Cfg, rep: &mut Report) -> bool {
         "C10" => c10::run(cfg, rep),
         "C11" => c11::run(cfg, rep),
         "C12" => c12::run(cfg, rep),
+        "C13" => status::run(cfg, rep, status::Focus::C13),
         "C14" => c14::run(cfg, rep),
+        "C15" => status::run(cfg, rep, status::Focus::C15),
+        "C16" => status::run(cfg, rep, status::Focus::C16),
+        "C17" => c17::run(cfg, rep),
+        "C18" => c18::run(cfg, rep),
         "C19" => c19::run(cfg, rep),
+        "C20" => c20::run(cfg, rep),
         _ => return false,
     }
     true
